@@ -27,7 +27,10 @@ def pkg_dir(demo, readme):
     return None
 
 
+only = set(sys.argv[3:])
 for n in sorted(os.listdir(os.path.join(wt, "out"))):
+    if only and n not in only:
+        continue
     d = os.path.join(wt, "out", n)
     patch, demo, readme = d + "/patch.diff", d + "/demo_test.go", d + "/README.md"
     if not (os.path.exists(patch) and os.path.exists(demo)):
@@ -57,7 +60,10 @@ for n in sorted(os.listdir(os.path.join(wt, "out"))):
     shutil.copy(demo, target)
     tests = re.findall(r"^func (Test\w+)\(", open(demo).read(), re.M)
     runre = "^(%s)$" % "|".join(tests)
-    demogo = os.environ.get("DEMO_GO", "go")   # e.g. "GOTOOLCHAIN=local GODEBUG=asynctimerchan=0 go1.26.8" for synctest demos
+    demogo = os.environ.get("DEMO_GO", "go")
+    mdg = re.search(r"^\W*DEMO_GO:\s*`?([^`\n]+?)`?\s*$", open(readme).read(), re.M) if os.path.exists(readme) else None
+    if mdg:
+        demogo = mdg.group(1).strip()   # e.g. "GOTOOLCHAIN=local GODEBUG=asynctimerchan=0 go1.26.8" for synctest demos
     rc1, out1 = sh("%s test -vet=off -count=1 -run '%s' ./%s/" % (demogo, runre, pdir))
     res["demo_fails_with_change"] = rc1 != 0
     sh("git apply -R %s" % patch)
